@@ -83,7 +83,59 @@ class _SpecCache(object):
 # ================================================================================================
 # checks: one function per property; case = json-able dict; R = U.Runner
 # ================================================================================================
+def _check_C01_rdflib(case, R):
+    """Input delivered through rdflib (own Turtle rendering with input_format='turtle', or rdflib_graph=)."""
+    nt = case["nt"]
+    specs = _SpecCache(U.parse_nt(nt))
+    for run in case["runs"]:
+        cfg, t = run["cfg"], run["t"]
+        try:
+            nd = R.run(nt, cfg, t)
+        except U.Skipped:
+            continue
+        spec = specs.get(cfg)
+
+        def rep_(kind, run=run, cfg=cfg):
+            def f(key, what, obs, exp):
+                R.emit("C01:rdflib-channel:%s-mismatch" % kind, "[channel %s; %s] %s" % (cfg.get("_channel"), key, what),
+                       {"pid": "C01", "kind": "rdflib", "nt": nt, "runs": [run]}, observed=obs, expected=exp)
+            return f
+        U.check_figures("C01", nd, spec, _l2c(spec), cfg, rep_("figure"))
+        U.check_keys("C01", nd, spec, _l2c(spec), t, rep_("key"))
+
+
+def _check_C01_duplicates(case, R):
+    """N-Triples text in which some lines are written twice: a graph is a set, so the figures are those of the
+    de-duplicated graph, and no count may exceed the printed instance count."""
+    nt, dk = case["nt"], case["dup_kind"]
+    specs = _SpecCache(U.dedup(U.parse_nt(nt)))
+    for run in case["runs"]:
+        cfg, t = run["cfg"], run["t"]
+        try:
+            nd = R.run(nt, cfg, t)
+        except U.Skipped:
+            continue
+        spec = specs.get(cfg)
+        mini = {"pid": "C01", "kind": "duplicates", "dup_kind": dk, "nt": nt, "runs": [run]}
+        for sh in nd:
+            for (c, source, value, card, ratio, rt, count, raw) in U.figures(sh):
+                if value[0] != "NONLITERAL" and count is not None and sh["N"] is not None and count > sh["N"]:
+                    R.emit("C01:duplicate-lines:%s:count-exceeds-instances" % dk,
+                           "duplicated %s line: %s reports %d instances but a constraint figure counts %d [%s]"
+                           % (dk, sh["label"], sh["N"], count, raw.strip()), mini, observed=count, expected="<= %d" % sh["N"])
+
+        def report(key, what, obs, exp, mini=mini):
+            sub = "instance-count" if ":instance-count" in key else "figure"
+            R.emit("C01:duplicate-lines:%s:%s" % (dk, sub), "duplicated %s line, expected the figures of the de-duplicated "
+                   "graph [%s]: %s" % (dk, key, what), mini, observed=obs, expected=exp)
+        U.check_figures("C01", nd, spec, _l2c(spec), cfg, report)
+
+
 def check_C01(case, R):
+    if case.get("kind") == "rdflib":
+        return _check_C01_rdflib(case, R)
+    if case.get("kind") == "duplicates":
+        return _check_C01_duplicates(case, R)
     nt = case["nt"]
     specs = _SpecCache(U.parse_nt(nt))
     runs = case.get("runs")
@@ -137,9 +189,71 @@ def check_float_boundary(case, R):
                            dict(case, cfgs=[cfg], thresholds=[t]), observed=kx in keys, expected=want)
 
 
+def _spell(c, how):
+    G = U.lib()[2]
+    if how == "bracketed":
+        return "<%s>" % c
+    if how == "prefixed":
+        for ns, pre in G.NAMESPACES.items():
+            if c.startswith(ns) and "/" not in c[len(ns):] and "#" not in c[len(ns):]:
+                return "%s:%s" % (pre, c[len(ns):])
+    return c
+
+
+def check_target_spelling(case, R):
+    """target_classes spelled as full / <bracketed> / prefixed IRIs with remove_empty_shapes=False, one requested
+    class has no instance: exactly one shape per requested class, labelled by the class's local name."""
+    M, S, G = U.lib()
+    pid, nt, cfg, t, classes = case["pid"], case["nt"], case["cfg"], case["t"], case["classes"]
+    T = U.parse_nt(nt)
+    spelled = [_spell(c, how) for c, how in zip(classes, case["spelling"])]
+    tag = "%s:target-spelling" % pid
+
+    def emit(key, what, obs, exp):
+        R.emit(key, what, dict((k, v) for k, v in case.items() if k != "origin"), observed=obs, expected=exp)
+    try:
+        nd = R.run(nt, _merge(cfg, {"target_classes": spelled, "remove_empty_shapes": False}), t)
+    except U.Skipped:
+        return
+    spec = U.spec_for(T, _merge(cfg, {"target_classes": classes}))
+    want = dict((U.label_of(C), C) for C in classes)
+    got = [sh["label"] for sh in nd]
+    for lab in sorted(set(x for x in got if got.count(x) > 1)):
+        emit(tag + ":unexpected-shape", "shape %s printed %d times for target_classes=%r" % (lab, got.count(lab), spelled), got, sorted(want))
+    missing = sorted(set(want) - set(got))
+    for lab in sorted(set(got) - set(want)):
+        alias = [m for m in missing if U.local_name(want[m]) in lab]
+        if alias:
+            missing.remove(alias[0])
+            emit(tag + ":label", "requested class %s (spelled %r) is printed under the label %s instead of %s"
+                 % (want[alias[0]], spelled[classes.index(want[alias[0]])], lab, alias[0]), lab, alias[0])
+        else:
+            emit(tag + ":unexpected-shape", "target_classes=%r (remove_empty_shapes=False): shape %s corresponds to no requested "
+                 "class; shapes printed: %r" % (spelled, lab, got), got, sorted(want))
+    for lab in missing:
+        emit(tag + ":missing-shape", "target_classes=%r (remove_empty_shapes=False): no shape %s for requested class %s (%d instances)"
+             % (spelled, lab, want[lab], spec.N.get(want[lab], 0)), got, sorted(want))
+    live = []
+    for sh in nd:
+        C = want.get(sh["label"])
+        if C is None:
+            continue
+        if C not in spec.N:
+            if sh["N"] not in (0, None) or sh["cons"]:
+                emit(tag + ":instance-less-class-not-empty", "class %s has no instance but its shape reports %r instances / %d "
+                     "constraints" % (C, sh["N"], len(sh["cons"])), sh["N"], 0)
+        else:
+            live.append(sh)
+    l2c = _l2c(spec)
+    U.check_figures(tag, live, spec, l2c, cfg, emit)
+    U.check_keys(tag, live, spec, l2c, t, emit, check_shapes=False)
+
+
 def check_C02(case, R):
     if case.get("kind") == "float-boundary":
         return check_float_boundary(case, R)
+    if case.get("kind") == "target-spelling":
+        return check_target_spelling(case, R)
     nt = case["nt"]
     specs = _SpecCache(U.parse_nt(nt))
     for cfg in case["cfgs"]:
@@ -177,6 +291,10 @@ def check_C12(case, R):
                     R.emit("C12:figure-conflict-within-output", "t=%r: fact %r printed with two figures %r / %r" % (t, fk, a, b),
                            {"pid": "C12", "nt": nt, "cfgs": [cfg], "thresholds": [t]}, observed=[a, b], expected="one figure")
             outs.append((t, shapes))
+            if t in (0, 1):          # "at threshold 0 nothing observed is omitted, at threshold 1 only features of all instances remain"
+                def absolute(key, what, obs, exp, cfg=cfg, t=t):
+                    R.emit(key, what, {"pid": "C12", "nt": nt, "cfgs": [cfg], "thresholds": [t]}, observed=obs, expected=exp)
+                U.check_keys("C12", nd, spec, l2c, t, absolute)
         for (t1, s1), (t2, s2) in itertools.combinations(outs, 2):      # t1 < t2
             def emit(key, what, obs, exp, t1=t1, t2=t2, cfg=cfg):
                 R.emit(key, what, {"pid": "C12", "nt": nt, "cfgs": [cfg], "thresholds": [t1, t2]}, observed=obs, expected=exp)
@@ -411,25 +529,35 @@ def check_C14(case, R):
     T = U.parse_nt(nt)
     pi = M.RDF_TYPE
     ntR = U.to_nt(_reverse_graph(T, pi))
+    items = case.get("items")          # shape-map family: shapes may legitimately vanish at high thresholds
+    base = cfg
+    if items:
+        base = _merge(cfg, {"shape_map_raw": "\n".join("%s@<%s>" % (_selector_text(it["sel"]), it["label"]) for it in items)})
     try:
-        d0 = R.run(nt, _merge(cfg, {"inverse_paths": False}), t)
-        d1 = R.run(nt, _merge(cfg, {"inverse_paths": True}), t)
+        d0 = R.run(nt, _merge(base, {"inverse_paths": False}), t)
+        d1 = R.run(nt, _merge(base, {"inverse_paths": True}), t)
     except U.Skipped:
         return
 
     def emit(key, what, obs, exp):
-        R.emit(key, what, {"pid": "C14", "nt": nt, "cfg": cfg, "t": t, "relaxed": relaxed}, observed=obs, expected=exp)
+        R.emit(key, what, dict(dict((k, v) for k, v in case.items() if k != "origin"), pid="C14"), observed=obs, expected=exp)
+
+    def refs_alive(c, alive):
+        """False for a constraint whose value refers to a shape that did not survive in both compared outputs
+        (such constraints are removed together with the shape they point to)."""
+        return not (c["value"][0] == "shape" and c["value"][1] not in alive)
 
     s0 = dict((sh["label"], sh) for sh in d0)
     s1 = dict((sh["label"], sh) for sh in d1)
-    if set(s0) != set(s1):
+    alive01 = set(s0) & set(s1)
+    if set(s0) != set(s1) and not items:
         emit("C14:shape-set", "inverse_paths changes the set of shapes: %s vs %s" % (sorted(s0), sorted(s1)), sorted(s1), sorted(s0))
     for lab in sorted(set(s0) & set(s1)):
         if s0[lab]["N"] != s1[lab]["N"]:
             emit("C14:instance-count", "%s: %r instances without, %r with inverse_paths" % (lab, s0[lab]["N"], s1[lab]["N"]),
                  s1[lab]["N"], s0[lab]["N"])
-        a = sorted((_con_sig(c) for c in s0[lab]["cons"] if not c["inv"]), key=repr)
-        b = sorted((_con_sig(c) for c in s1[lab]["cons"] if not c["inv"]), key=repr)
+        a = sorted((_con_sig(c) for c in s0[lab]["cons"] if not c["inv"] and refs_alive(c, alive01)), key=repr)
+        b = sorted((_con_sig(c) for c in s1[lab]["cons"] if not c["inv"] and refs_alive(c, alive01)), key=repr)
         if any(c["inv"] for c in s0[lab]["cons"]):
             emit("C14:inverse-without-option", "%s: '^' constraint printed with inverse_paths=False" % lab, None, None)
         if a != b:
@@ -437,26 +565,31 @@ def check_C14(case, R):
                  % (lab, [x for x in a if x not in b][:2] + [x for x in b if x not in a][:2]), repr(b)[:800], repr(a)[:800])
     # inverse constraints of G == direct constraints of reverse(G)
     try:
-        dR = R.run(ntR, _merge(cfg, {"inverse_paths": False}), t)
+        dR = R.run(ntR, _merge(base, {"inverse_paths": False}), t)
     except U.Skipped:
         return
-    spec = U.spec_for(T, _merge(cfg, {"inverse_paths": True}))
-    l2c = _l2c(spec)
+    if items:
+        spec, l2c, _, _ = _mixed_oracle(T, items, cfg, True, bool(cfg.get("all_classes_mode")))
+    else:
+        spec = U.spec_for(T, _merge(cfg, {"inverse_paths": True}))
+        l2c = _l2c(spec)
     sR = dict((sh["label"], sh) for sh in dR)
+    aliveR = set(sR) & set(s1)
     hits = U.literal_link_hits(T)
 
     def lit_hit(lab, p):
         C = l2c.get(lab)
         return C is not None and any(M.node_id(x) in hits.get(p, ()) for x in spec.inst.get(C, ()))
-    if set(sR) != set(s1):
+    if set(sR) != set(s1) and not items:
         emit("C14:reverse:shape-set", "shapes of reverse(G) %s vs shapes of G %s" % (sorted(sR), sorted(s1)), sorted(sR), sorted(s1))
     nonlit = ("IRI", "BNode", "shape", "NONLITERAL")
     for lab in sorted(set(sR) & set(s1)):
         if sR[lab]["N"] != s1[lab]["N"]:
             emit("C14:reverse:instance-count", "%s: %r instances in G, %r in reverse(G)" % (lab, s1[lab]["N"], sR[lab]["N"]),
                  sR[lab]["N"], s1[lab]["N"])
-        inv = dict((c["p"], c) for c in s1[lab]["cons"] if c["inv"] and c["p"] != pi)
-        drv = dict((c["p"], c) for c in sR[lab]["cons"] if not c["inv"] and c["p"] != pi and c["value"][0] in nonlit)
+        inv = dict((c["p"], c) for c in s1[lab]["cons"] if c["inv"] and c["p"] != pi and refs_alive(c, aliveR))
+        drv = dict((c["p"], c) for c in sR[lab]["cons"] if not c["inv"] and c["p"] != pi and c["value"][0] in nonlit
+                   and refs_alive(c, aliveR))
         if relaxed and t != 0 and set(inv) <= set(drv):
             # blank-node subjects give no shape reference in the inverse direction (by design), so a reference
             # may reach the threshold only in reverse(G)
@@ -544,6 +677,43 @@ def check_C16(case, R):
             if k >= maxN and nocap is not None and _strip_raw(nd) != _strip_raw(nocap):
                 report("C16:cap:large-cap-changes-output", "instances_cap=%d >= every class size (%d) but the output differs from the "
                        "uncapped one" % (k, maxN), repr(_strip_raw(nd))[:600], repr(_strip_raw(nocap))[:600])
+    elif case["kind"] == "ignore-pi":
+        # the ignored namespaces contain the instantiation property: membership is still read from the full graph,
+        # the features come from the graph without the direct children of the namespaces (instantiation triples included)
+        ns = case["ns"]
+        full = U.spec_for(T, cfg)
+        inst = collections.OrderedDict((C, list(xs)) for C, xs in full.inst.items())
+        Tf = [tr for tr in T if not _is_direct_child(tr[1], ns)]
+        spec = U.spec_for_instances(Tf, inst, inverse=bool(cfg.get("inverse_paths")), pi=full.pi)
+        l2c = _l2c(spec)
+        try:
+            nd = R.run(nt, _merge(cfg, {"namespaces_to_ignore": ns}), t)
+        except U.Skipped:
+            return
+
+        def report(key, what, obs, exp):
+            R.emit(key, "namespaces_to_ignore=%r (contains the instantiation property %s): %s" % (ns, full.pi, what),
+                   {"pid": "C16", "kind": "ignore-pi", "nt": nt, "cfg": cfg, "t": t, "ns": ns}, observed=obs, expected=exp)
+        U.check_figures("C16:ignore-pi", nd, spec, l2c, cfg, report)
+        U.check_keys("C16:ignore-pi", nd, spec, l2c, t, report)
+    elif case["kind"] == "files":
+        files = case["files"]
+        mini = {"pid": "C16", "kind": "files", "nt": nt, "files": files, "cfg": cfg, "t": t}
+        try:
+            a = R.run(nt, _merge(cfg, {"_channel": "files", "_files": files}), t)
+            b = R.run(nt, cfg, t)
+        except U.Skipped:
+            return
+        if _strip_raw(a) != _strip_raw(b):
+            R.emit("C16:files:differs-from-concatenation",
+                   "graph_list_of_files_input=%r with %r differs from the same text given as one document (files are to be "
+                   "read in the listed order)" % ([f[0] for f in files], dict((k, v) for k, v in cfg.items() if k == "instances_cap")),
+                   mini, observed=repr(_strip_raw(a))[:800], expected=repr(_strip_raw(b))[:800])
+        spec = U.spec_for(T, cfg)
+
+        def report(key, what, obs, exp):
+            R.emit(key, what, mini, observed=obs, expected=exp)
+        U.check_figures("C16:files", a, spec, _l2c(spec), cfg, report)
     else:
         ns = case["ns"]
         T2 = [tr for tr in T if tr[1] == M.RDF_TYPE or not _is_direct_child(tr[1], ns)]
@@ -568,11 +738,13 @@ def check_C16(case, R):
                    observed=repr(_strip_raw(a))[:800], expected=repr(_strip_raw(b))[:800])
 
 
-def _selector_text(sel):
+def _selector_text(sel, namespaces=None):
     G = U.lib()[2]
+    if sel.get("text"):
+        return sel["text"]
 
     def pn(iri):
-        for ns, pre in G.NAMESPACES.items():
+        for ns, pre in (namespaces or G.NAMESPACES).items():
             if iri.startswith(ns) and "/" not in iri[len(ns):] and "#" not in iri[len(ns):]:
                 return pre + ":" + iri[len(ns):]
         return "<" + iri + ">"
@@ -656,9 +828,30 @@ def check_C10(case, R):
         return
     if kind == "mixed":
         return _check_C10_mixed(case, R, T, emit)
+    if kind == "target-spelling":
+        return check_target_spelling(case, R)
+    if kind == "shaper-pair":
+        # two Shapers in ONE process, same prefixed class list, the prefix bound to different namespaces
+        for nsx in case["namespaces"]:
+            nsd = collections.OrderedDict([(nsx, case["prefix"]), (M.XSD, "xsd"), (M.RDF, "rdf")])
+            cx = _merge(cfg, {"target_classes": ["%s:%s" % (case["prefix"], case["local"])], "namespaces_dict": nsd})
+            try:
+                nd = R.run(nt, cx, t)
+            except U.Skipped:
+                continue
+            spec = U.spec_for(T, cx)
+            l2c = _l2c(spec)
+
+            def pair(key, what, obs, exp, nsx=nsx):
+                emit(key, "[%s: bound to <%s>] %s" % (case["prefix"], nsx, what), obs, exp)
+            U.check_figures("C10:shaper-pair", nd, spec, l2c, cx, pair)
+            U.check_keys("C10:shaper-pair", nd, spec, l2c, t, pair)
+        return
     # shape maps
     items = case["items"]
-    sm = "\n".join("%s@<%s>" % (_selector_text(it["sel"]), it["label"]) for it in items)
+    nsd = cfg.get("namespaces_dict")
+    fam = "C10:selector-prefix" if case.get("family") == "selector-prefix" else None
+    sm = "\n".join("%s@<%s>" % (_selector_text(it["sel"], nsd), it["label"]) for it in items)
     try:
         nd0 = R.run(nt, _merge(cfg, {"shape_map_raw": sm}), 0)      # instance counts are read at t=0 (nothing filtered)
         nd = nd0 if t == 0 else R.run(nt, _merge(cfg, {"shape_map_raw": sm}), t)
@@ -675,16 +868,16 @@ def check_C10(case, R):
     bad_count = False
     for lab, sh in got.items():
         if lab not in inst:
-            emit("C10:shapemap:unexpected-shape", "shape %s is not a label of the shape map %r" % (lab, sm), lab, sorted(inst))
+            emit((fam or "C10:shapemap") + ":unexpected-shape", "shape %s is not a label of the shape map %r" % (lab, sm), lab, sorted(inst))
             bad_count = True
             continue
         n = len(inst[lab])
         if sh["N"] != n:
             bad_count = True
             why = "duplicate-solutions" if sh["N"] == sols[lab] and sols[lab] > n else "other"
-            emit("C10:shapemap-count:%s:%s" % (form[lab], why),
+            emit("%s:count:%s" % (fam, form[lab]) if fam else "C10:shapemap-count:%s:%s" % (form[lab], why),
                  "selector %s denotes %d node(s) %r but the shape reports %r instances%s"
-                 % (_selector_text([it for it in items if it["label"] == lab][0]["sel"]), n,
+                 % (_selector_text([it for it in items if it["label"] == lab][0]["sel"], nsd), n,
                     [M.node_to_nt(x) for x in inst[lab]][:6], sh["N"],
                     " (= number of matching triples: a node matching k times is counted k times)" if why == "duplicate-solutions" else ""),
                  sh["N"], n)
@@ -694,8 +887,30 @@ def check_C10(case, R):
                                         for lab, xs in inst.items() if xs),
                                 inverse=bool(cfg.get("inverse_paths")))
     l2c = dict((lab, lab) for lab in spec.N)
-    U.check_figures("C10:shapemap", nd, spec, l2c, cfg, emit)
-    U.check_keys("C10:shapemap", nd, spec, l2c, t, emit)
+    U.check_figures(fam or "C10:shapemap", nd, spec, l2c, cfg, emit)
+    U.check_keys(fam or "C10:shapemap", nd, spec, l2c, t, emit)
+
+
+def _mixed_oracle(T, items, cfg, inverse, with_classes, namespaces=None):
+    """Oracle in which a node carries its shape-map labels (and, with_classes, its classes by the instantiation
+    property).  -> (spec, l2c, labels, inst)"""
+    M, S, G = U.lib()
+    pi = cfg.get("instantiation_property", M.RDF_TYPE)
+    inst = collections.OrderedDict()
+    for it in items:
+        nodes, _ = _selector_nodes(it["sel"], T)
+        inst[it["label"]] = U.dedup(inst.get(it["label"], []) + nodes)
+    labels = set(inst)
+    if with_classes:
+        for (s_, p_, o_) in T:
+            if p_ == pi and not M.is_literal(o_):
+                inst.setdefault(M.node_id(o_), [])
+                if s_ not in inst[M.node_id(o_)]:
+                    inst[M.node_id(o_)].append(s_)
+    inst = collections.OrderedDict((k, v) for k, v in inst.items() if v)
+    spec = U.spec_for_instances(T, inst, inverse=inverse, pi=pi)
+    l2c = dict((name if name in labels else U.label_of(name), name) for name in spec.N)
+    return spec, l2c, labels, inst
 
 
 def _check_C10_mixed(case, R, T, emit):
@@ -785,7 +1000,9 @@ def _rename_bnodes(T, rng):
     labels = sorted(set(x.label for (s, p, o) in T for x in (s, o) if isinstance(x, M.BNode)))
     if not labels:
         return T
-    new = ["z%d" % i for i in range(len(labels))]
+    # valid N-Triples labels with '.', '-' and digits inside (never a trailing dot)
+    pool = ["genid.1", "b-2", "a.b.c", "x9", "n.0-k", "B_7.q", "z-z.9"]
+    new = [pool[i] if i < len(pool) else "z%d.%d" % (i, i) for i in range(len(labels))]
     rng.shuffle(new)
     mp = dict(zip(labels, new))
 
@@ -948,7 +1165,155 @@ def gen_cases(pid, tier, seed):
                               "items": [{"sel": sels[2], "label": U.ALT_SHAPES_NS + "L1"}, {"sel": sels[3], "label": U.ALT_SHAPES_NS + "L2"}]})
     else:
         raise ValueError("unknown property %r" % pid)
+    cases.extend(_extra_cases(pid, tier, rng, n_enum, n_rand))
+    # call-history sub-family: ~3 % of the cases of every family reuse one Shaper (see _pipeline_util.run_shexer)
+    rate = 6 if tier == "selftest" else 33
+    for i, c in enumerate(cases):
+        if i % rate == rate // 2:
+            c["history"] = True
     return cases
+
+
+OBO = "http://purl.obolibrary.org/obo/"
+ALT = "http://alt.org/"
+WD = "http://www.wikidata.org/entity/"
+WDT = "http://www.wikidata.org/prop/direct/"
+RDFS = "http://www.w3.org/2000/01/rdf-schema#"
+
+
+def _extra_cases(pid, tier, rng, n_enum, n_rand):
+    """Families added for seeded changes that the original families could not see."""
+    M, S, G = U.lib()
+    modes = ("all", "A", "AB")
+    out = []
+    small = tier == "selftest"
+
+    def n_of(div, floor=6):
+        return max(floor, n_rand // div)
+
+    if pid == "C01":
+        for gi in range(n_of(10)):                     # input through rdflib, same text / different kind
+            T = U.same_text_graph(rng)
+            runs = []
+            for ci, ch in enumerate(("turtle", "rdflib_graph")):
+                for mi, mode in enumerate(("all", "A")):
+                    for ti, t in enumerate((0, 0.5)):
+                        inv = {"inverse_paths": True} if (gi + ci + mi + ti) % 2 else {}
+                        runs.append({"cfg": _merge(_mode_cfg(mode), inv, {"_channel": ch}), "t": t})
+            out.append({"pid": pid, "kind": "rdflib", "origin": "rdflib-channel", "nt": U.to_nt(T), "runs": runs})
+        fam = U.mixed_family(rng, 0, n_of(5), big=False)
+        for gi, (origin, T) in enumerate(fam):         # statements written twice
+            dk = ("type", "data")[gi % 2]
+            T2 = U.add_duplicate_lines(T, rng, dk, n=rng.randint(1, 2))
+            if T2 is None:
+                continue
+            runs = [{"cfg": _merge(_mode_cfg(m), {"inverse_paths": True} if inv else {}), "t": 0} for m in ("all", "A") for inv in (False, True)]
+            out.append({"pid": pid, "kind": "duplicates", "dup_kind": dk, "origin": "duplicate-lines", "nt": U.to_nt(T2), "runs": runs})
+    if pid in ("C02", "C10"):
+        for gi in range(n_of(8)):                      # target classes in three spellings, one without instances
+            T = U.rand_graph(rng, n_nodes=rng.randint(3, 7), n_triples=rng.randint(4, 14), n_classes=2, n_props=rng.randint(2, 3),
+                             p_bnode=0.15 if gi % 4 == 0 else 0.0)
+            classes = [G.CLASS_A, G.CLASS_B, G.EX + "Ghost"]
+            rng.shuffle(classes)
+            if gi % 3 == 0:
+                classes = [c for c in classes if c != G.CLASS_B]
+            spelling = [rng.choice(("full", "bracketed", "prefixed", "prefixed")) for _ in classes]
+            out.append({"pid": pid, "kind": "target-spelling", "origin": "target-spelling", "nt": U.to_nt(T), "classes": classes,
+                        "spelling": spelling, "cfg": {"inverse_paths": True} if gi % 2 else {}, "t": (0, 0.5)[gi % 2]})
+    if pid == "C10":
+        for gi in range(n_of(10)):                     # two Shapers, same prefixed class list, different binding of the prefix
+            T = U.rand_graph(rng, n_nodes=rng.randint(4, 8), n_triples=rng.randint(6, 16), n_props=3, p_bnode=0.0, max_types=1,
+                             p_typed=0.9, classes=[G.EX + "C", ALT + "C"])
+            order = [G.EX, ALT] if gi % 2 == 0 else [ALT, G.EX]
+            out.append({"pid": pid, "kind": "shaper-pair", "origin": "shaper-pair", "nt": U.to_nt(T), "prefix": "ex", "local": "C",
+                        "namespaces": order, "cfg": {"inverse_paths": True} if gi % 3 == 0 else {}, "t": 0})
+        ns_a = [[WD, "wd"], [WDT, "wdt"], [M.RDF, "rdf"], [RDFS, "rdfs"], [M.XSD, "xsd"], [G.EX, "ex"]]
+        ns_b = [[G.EX, ""], [WD, "wd"], [WDT, "wdt"], [M.RDF, "rdf"], [RDFS, "rdfs"], [M.XSD, "xsd"]]
+        for gi in range(n_of(10)):                     # prefixes that are initial segments of one another, shorter declared first
+            ents = [M.IRI(WD + "Q%d" % i) for i in range(1, 6)] + [M.IRI(WDT + "x"), M.IRI(G.EX + "e1")]
+            T = [M.Triple(rng.choice(ents), M.RDF_TYPE, M.IRI(WD + "Q5")) for _ in range(2)]
+            for _ in range(rng.randint(6, 14)):
+                s_ = rng.choice(ents)
+                p_ = rng.choice([WDT + "P31", WDT + "P31", WDT + "P21", RDFS + "label", G.EX + "p"])
+                if p_ == WDT + "P31":
+                    o_ = M.IRI(WD + rng.choice(("Q5", "Q6")))
+                elif p_ == RDFS + "label":
+                    o_ = M.Lit(rng.choice("xyz"))
+                else:
+                    o_ = rng.choice(ents + [M.Lit("1", dt=M.XSD_INTEGER), M.Lit("x")])
+                T.append(M.Triple(s_, p_, o_))
+            T += [M.Triple(M.IRI(WDT + "x"), WDT + "P31", M.IRI(WD + "Q5")), M.Triple(M.IRI(G.EX + "e1"), G.EX + "p", M.Lit("x"))]
+            T = U.dedup(T)
+            for (nsl, sels) in ((ns_a, [{"form": "focus-po", "p": WDT + "P31", "o": WD + "Q5"}, {"form": "node", "node": WDT + "x", "prefixed": True},
+                                       {"form": "focus-subj", "p": RDFS + "label"}, {"form": "focus-subj", "p": WDT + "P21"}]),
+                                (ns_b, [{"form": "node", "node": G.EX + "e1", "prefixed": True}, {"form": "focus-subj", "p": G.EX + "p"},
+                                        {"form": "focus-subj", "p": WDT + "P31"}, {"form": "focus-po", "p": WDT + "P31", "o": WD + "Q6"}])):
+                nsd = collections.OrderedDict((k, v) for k, v in nsl)
+                for si, sel in enumerate(sels):
+                    if (gi + si) % 2:
+                        continue
+                    out.append({"pid": pid, "kind": "shapemap", "family": "selector-prefix", "origin": "selector-prefix", "nt": U.to_nt(T),
+                                "cfg": _merge({"namespaces_dict": nsd}, {"inverse_paths": True} if gi % 2 else {}), "t": 0,
+                                "items": [{"sel": sel, "label": U.ALT_SHAPES_NS + "L1"}]})
+    if pid == "C13":
+        base_ns = dict(G.NAMESPACES)
+        variants = {"RO": [[OBO + "RO_", "RO"]], "obo": [[OBO, "obo"]], "RO+obo": [[OBO + "RO_", "RO"], [OBO, "obo"]],
+                    "RO+BFO": [[OBO + "BFO_", "BFO"], [OBO + "RO_", "RO"]], "none": []}
+
+        def nsd(name):
+            return collections.OrderedDict(variants[name] + [[k, v] for k, v in base_ns.items()])
+        for gi in range(n_of(8)):                      # namespaces that do not end in '/' or '#'
+            T = U.rand_graph(rng, n_nodes=rng.randint(3, 7), n_triples=rng.randint(5, 16), n_props=1, p_bnode=0.0,
+                             classes=[G.CLASS_A, OBO + "RO_0000057", OBO + "BFO_0000040"],
+                             extra_props=(OBO + "RO_0002211", OBO + "RO_0002212", OBO + "BFO_0000050"))
+            pairs = [["namespaces_dict", nsd(a), nsd(b)] for a, b in (("none", "RO"), ("RO", "obo"), ("obo", "RO+obo"), ("none", "RO+BFO"))]
+            out.append({"pid": pid, "origin": "obo-namespaces", "nt": U.to_nt(T),
+                        "base": _merge(_mode_cfg("all"), {"inverse_paths": True} if gi % 2 else {}), "t": (0, 0.5)[gi % 2], "pairs": pairs})
+    if pid == "C14":
+        for gi in range(n_of(5)):                      # shape map + inverse paths + thresholds that empty a shape
+            T = U.rand_graph(rng, n_nodes=rng.randint(4, 7), n_triples=rng.randint(6, 16), n_classes=2, n_props=rng.randint(2, 3),
+                             p_bnode=0.0, p_typed=0.7)
+            typed = U.dedup([s.iri for (s, p, o) in T if p == M.RDF_TYPE])
+            others = U.dedup([x.iri for (s, p, o) in T for x in (s, o) if isinstance(x, M.IRI) and x.iri not in typed
+                              and not x.iri.startswith(G.EX + "A") and not x.iri.startswith(G.EX + "B")]) or typed
+            classes = U.dedup([o.iri for (s, p, o) in T if p == M.RDF_TYPE])
+            items = [{"sel": {"form": "node", "node": rng.choice(typed)}, "label": U.ALT_SHAPES_NS + "L1"},
+                     {"sel": {"form": "node", "node": rng.choice(others)}, "label": U.ALT_SHAPES_NS + "L1"},
+                     {"sel": {"form": "focus-type", "cls": rng.choice(classes)}, "label": U.ALT_SHAPES_NS + "L2"}]
+            cfg = _merge({"all_classes_mode": True} if gi % 2 else {}, _switch_combo(rng, 0.2) if gi % 3 == 0 else {})
+            for t in (1, 0.6):
+                out.append({"pid": pid, "origin": "shapemap-gone-shapes", "nt": U.to_nt(T), "cfg": cfg, "t": t, "relaxed": False, "items": items})
+    if pid == "C16":
+        for gi in range(n_of(8)):                      # the ignored namespaces contain the instantiation property
+            custom = gi % 2 == 1
+            T = U.rand_graph(rng, n_nodes=rng.randint(3, 7), n_triples=rng.randint(5, 16), n_classes=rng.randint(2, 3), n_props=3,
+                             p_bnode=0.0, pi=U.PI_ISA if custom else M.RDF_TYPE, extra_props=(M.RDF_TYPE,) if custom else ())
+            ns = rng.choice([[G.EX], [G.EX, G.OTHER]]) if custom else rng.choice([[M.RDF], [M.RDF, G.EX], [G.OTHER, M.RDF]])
+            cfg = _merge(_mode_cfg(("all", "AB")[gi % 4 // 2]), {"instantiation_property": U.PI_ISA} if custom else {},
+                         {"inverse_paths": True} if gi % 3 == 0 else {})
+            out.append({"pid": pid, "kind": "ignore-pi", "origin": "ignore-pi", "nt": U.to_nt(T), "cfg": cfg, "t": (0, 0.5)[gi % 2], "ns": ns})
+        for gi in range(n_of(10)):                     # several files listed in non-lexicographic order + cap
+            T = U.rand_graph(rng, n_nodes=rng.randint(4, 8), n_triples=rng.randint(8, 20), n_classes=2, n_props=3, p_bnode=0.0, p_typed=0.9)
+            lines = U.to_nt(T).splitlines(True)
+            names = (["part_b.nt", "part_a.nt"], ["z.nt", "m.nt", "a.nt"], ["g2.nt", "g10.nt", "g1.nt"])[gi % 3]
+            cuts = sorted(rng.sample(range(1, len(lines)), len(names) - 1))
+            chunks = [lines[i:j] for i, j in zip([0] + cuts, cuts + [len(lines)])]
+            files = [[n, "".join(ch)] for n, ch in zip(names, chunks)]
+            maxN = max(list(U.spec_for(T, {"all_classes_mode": True}).N.values()) or [1])
+            cfg = _merge(_mode_cfg(("all", "AB")[gi % 2]), {"instances_cap": max(1, maxN // 2)}, {"inverse_paths": True} if gi % 4 == 0 else {})
+            out.append({"pid": pid, "kind": "files", "origin": "files", "nt": "".join(lines), "files": files, "cfg": cfg, "t": 0})
+    if pid in ("C02", "C12"):
+        for gi in range(n_of(10)):                     # multi-typed instances whose extra class is not shared by all, direct strategy
+            n = rng.randint(3, 6)
+            nodes = [M.IRI(G.EX + "m%d" % i) for i in range(n)]
+            T = [M.Triple(x, M.RDF_TYPE, M.IRI(G.CLASS_A)) for x in nodes]
+            T += [M.Triple(x, M.RDF_TYPE, M.IRI(G.CLASS_B)) for x in nodes[:rng.randint(1, n - 1)]]
+            T += [M.Triple(x, G.PROP_P, M.Lit("x")) for x in nodes]
+            T += [M.Triple(x, G.PROP_Q, rng.choice(nodes)) for x in nodes[:rng.randint(1, n)]]
+            rng.shuffle(T)
+            out.append({"pid": pid, "origin": "multi-typed-direct", "nt": U.to_nt(U.dedup(T)),
+                        "cfgs": [_mode_cfg("A"), _mode_cfg("all"), _mode_cfg("AB")], "thresholds": "grid"})
+    return out
 
 
 RULES = {
@@ -983,6 +1348,23 @@ RULES = {
 }
 
 
+EXTRA_RULES = {
+    "C01": "; input through rdflib (own Turtle rendering / rdflib_graph=) on graphs with same-text-different-kind objects; N-Triples "
+           "texts with repeated lines (figures of the de-duplicated graph, no count above the instance count)",
+    "C02": "; target classes spelled full/<bracketed>/prefixed with remove_empty_shapes=False and an instance-less class (exactly one "
+           "shape per requested class); multi-typed instances with a partially shared extra class under the direct strategy",
+    "C12": "; at t=0 and t=1 the printed keys equal the oracle's (nothing omitted / only features of all instances)",
+    "C09": "; blank-node relabelings use labels with '.', '-' and digits",
+    "C10": "; target-spelling family as in C02; two Shapers in one process with one prefix bound to two namespaces; selectors with "
+           "prefixes that are initial segments of one another (wd/wdt, rdf/rdfs, empty prefix first)",
+    "C13": "; namespaces that do not end in '/' or '#' (OBO style) compared after expansion with each output's own PREFIX table",
+    "C14": "; shape maps selecting heterogeneous nodes at thresholds that empty a shape (relation on the surviving shapes, constraints "
+           "referring to a vanished shape excluded)",
+    "C16": "; ignored namespaces that contain the instantiation property (membership from the full graph); graph_list_of_files_input "
+           "in non-lexicographic order with instances_cap == the concatenated document",
+}
+
+
 # ================================================================================================
 # driver
 # ================================================================================================
@@ -990,11 +1372,23 @@ def _init_worker():
     U.env()
 
 
+def _run_case(case, R):
+    if "history_call" in case:                     # minimal reproducer of a call-history finding
+        hc = case["history_call"]
+        R.history = True
+        try:
+            R.run(hc["nt"], hc["cfg"], hc["t"])
+        except U.Skipped:
+            pass
+        return
+    CHECKS[case["pid"]](case, R)
+
+
 def _work(case):
-    R = U.Runner()
+    R = U.Runner(pid=case["pid"], history=bool(case.get("history")))
     t0 = time.time()
     try:
-        CHECKS[case["pid"]](case, R)
+        _run_case(case, R)
     except Exception as exc:                       # a bug of the monitor itself must be visible
         import traceback
         return {"evaluations": R.evaluations, "crashes": dict(R.crashes), "nontrivial": sorted(R.nontrivial),
@@ -1062,7 +1456,9 @@ def run(pid, tier="quick", seed=0):
         undecided.append("pipeline monitor %s: %d case(s) raised inside the monitor, first: %s" % (pid, len(errors), errors[0]))
     return {"name": "pipeline-monitor", "label": "bounded", "property": pid, "tier": tier, "seed": seed,
             "evaluations": evaluations, "distinct_nontrivial": len(nontrivial), "cases": len(cases),
-            "rule": RULES[pid],
+            "rule": RULES[pid] + EXTRA_RULES.get(pid, "") + "; every 33rd case re-uses ONE Shaper (same call twice, another threshold and "
+                    "back, SHACL and back, profile_graph before/after): every ShExC text must equal the first one and the oracle is "
+                    "applied to the last",
             "bounds": "%d enumerated graphs (3 nodes, 2 classes, <= 3 data triples, 2 properties) + %d seeded random graphs (3-%d nodes, "
                       "<= %d data triples, 2-3 classes, no language-tagged literals); seed %s; wall-clock guard %d s per run"
                       % (SIZES[tier][pid][0], SIZES[tier][pid][1], 12 if tier == "thorough" else 8, 40 if tier == "thorough" else 20,
@@ -1078,8 +1474,8 @@ def replay(doc):
     if not case or case.get("pid") not in CHECKS:
         return True, "replay: document carries no pipeline case"
     U.env()
-    R = U.Runner()
-    CHECKS[case["pid"]](case, R)
+    R = U.Runner(pid=case["pid"], history=bool(case.get("history")))
+    _run_case(case, R)
     key = doc.get("key")
     same = [f for f in R.findings if f["key"] == key]
     if same:
@@ -1256,7 +1652,182 @@ def _mutants():
                 setattr_patch(irfs.IncludeReverseFeaturesStrategy, "_annotate_target_object", target_object_by_str)()]
         return lambda: [u() for u in undo]
 
-    return [
+    # ---- second round of seeded changes ---------------------------------------------------------
+    import re as _re
+    import shexer.shaper as shaper_mod
+    import shexer.io.shex.formater.shex_serializer as shex_ser
+    import shexer.io.graph.yielder.rdflib_triple_yielder as rty
+    import shexer.io.graph.yielder.nt_triples_yielder as nty
+    import shexer.utils.factories.class_profiler_factory as cpf
+    import shexer.utils.factories.instance_tracker_factory as itf
+    import shexer.utils.factories.triple_yielders_factory as tyf
+    import shexer.io.shape_map.node_selector.node_selector_parser as nsp
+    import shexer.io.shex.formater.statement_serializers.base_statement_serializer as bss
+    import shexer.model.shape as shape_mod
+    from shexer.io.profile.formater.abstract_profile_serializer import AbstractProfileSerializer
+    from shexer.model.node_selector import NodeSelectorNoSparql
+    from shexer.utils.uri import add_corners
+    RDF_TYPE_STR = "http://www.w3.org/1999/02/22-rdf-syntax-ns#type"
+
+    orig_rules = shex_ser.ShexSerializer._serialize_shape_rules
+
+    def rules_popping(self, a_shape):
+        orig_rules(self, a_shape)
+        if a_shape.n_statements > 1:
+            a_shape.statements.pop()
+
+    def profile_graph_unguarded(self, string_output=False, output_file=None, verbose=False):
+        self._check_correct_output_params(string_output, output_file)
+        if self._target_classes_dict is None:
+            self._launch_instance_tracker(verbose=verbose)
+        self._launch_class_profiler(verbose=verbose)
+        if string_output:
+            return AbstractProfileSerializer(self._profile).get_string_representation()
+        return AbstractProfileSerializer(self._profile).write_profile_to_file(target_file=output_file)
+
+    orig_token = rty.RdflibTripleYielder._turn_rdflib_token_into_model_obj
+    memo_tokens = {}
+
+    def token_memo(self, rdflib_obj):
+        k = str(rdflib_obj)
+        if k not in memo_tokens:
+            memo_tokens[k] = orig_token(self, rdflib_obj)
+        return memo_tokens[k]
+
+    def init_direct_fromkeys(self):
+        for an_instance, class_list in self._i_dict.items():
+            for a_class in dict.fromkeys(class_list):
+                if a_class not in self._c_shapes_dict:
+                    self._c_shapes_dict[a_class] = {}
+                    self._c_counts[a_class] = 0
+                self._c_counts[a_class] += 1
+
+    def bnode_token_regex(self, target_str, first_index):
+        m = _re.match(r"_:[\w\-]+", target_str[first_index:])
+        return first_index + m.end() - 1
+
+    orig_tune = cpf.tune_target_classes_if_needed
+    memo_tune = {}
+
+    def tune_memo(list_target_classes, prefix_namespaces_dict):
+        k = tuple(list_target_classes)
+        if k not in memo_tune:
+            memo_tune[k] = orig_tune(list_target_classes=list_target_classes, prefix_namespaces_dict=prefix_namespaces_dict)
+        return memo_tune[k]
+
+    def patch_tune_memo():
+        undo = [setattr_patch(m, "tune_target_classes_if_needed", tune_memo)() for m in (cpf, itf, tyf)]
+        return lambda: [u() for u in undo]
+
+    def prefixed_node_startswith(self, raw_selector):
+        for a_prefix in self._prefix_namespace_dict:
+            if raw_selector.startswith(a_prefix):
+                return NodeSelectorNoSparql(raw_selector=raw_selector, sgraph=self._sgraph,
+                                            target_node=self._unprefix_uri(prefix=a_prefix, uri=raw_selector))
+
+    def uri_focus_startswith(self, token):
+        if token == "a":
+            return add_corners(RDF_TYPE_STR)
+        elif token.endswith(">"):
+            if token.startswith("<"):
+                return token
+        else:
+            for a_prefix in self._prefix_namespace_dict:
+                if token.startswith(a_prefix):
+                    return add_corners(self._unprefix_uri(prefix=a_prefix, uri=token))
+        raise ValueError("URI not well formed or with an unknown prefix: " + token)
+
+    def patch_selector_prefix():
+        undo = [setattr_patch(nsp.NodeSelectorParser, "_parse_prefixed_node_selector", prefixed_node_startswith)(),
+                setattr_patch(nsp.NodeSelectorParser, "_parse_uri_focus_expression", uri_focus_startswith)()]
+        return lambda: [u() for u in undo]
+
+    def prefixize_last_segment(uri, namespaces_dict):
+        best_match = None
+        for a_namespace in namespaces_dict:
+            if uri.startswith(a_namespace):
+                if "/" not in uri[len(a_namespace):] and "#" not in uri[len(a_namespace):]:
+                    best_match = a_namespace
+                    break
+        return None if best_match is None else namespaces_dict[best_match] + ":" + uri[max(uri.rfind("/"), uri.rfind("#")) + 1:]
+
+    def patch_direct_setter():
+        old_prop = shape_mod.Shape.__dict__["direct_statements"]
+
+        def setter(self, statements):
+            self._statements = [a_statement for a_statement in statements]
+        shape_mod.Shape.direct_statements = property(old_prop.fget, setter)
+        return lambda: setattr(shape_mod.Shape, "direct_statements", old_prop)
+
+    orig_build_tracker = shaper_mod.Shaper._build_instance_tracker
+
+    def build_tracker_with_ignored_namespaces(self):
+        orig_fn = shaper_mod.get_instance_tracker
+
+        def with_ns(**kw):
+            kw["namespaces_to_ignore"] = self._namespaces_to_ignore
+            return orig_fn(**kw)
+        shaper_mod.get_instance_tracker = with_ns
+        try:
+            return orig_build_tracker(self)
+        finally:
+            shaper_mod.get_instance_tracker = orig_fn
+
+    orig_gty = tyf.get_triple_yielder
+
+    def gty_sorted(**kw):
+        if kw.get("list_of_source_files") is not None:
+            kw["list_of_source_files"] = sorted(set(kw["list_of_source_files"]))
+        return orig_gty(**kw)
+
+    def patch_sorted_files():
+        undo = [setattr_patch(m, "get_triple_yielder", gty_sorted)() for m in (cpf, itf, tyf)]
+        return lambda: [u() for u in undo]
+
+    def yield_base_keep_rdf_type(self, acceptance_threshold):
+        for ck in self._class_profile_dict:
+            name = build_shapes_name_for_class_uri(class_uri=ck, shapes_namespace=self._shapes_namespace)
+            n = float(self._class_counts_dict[ck])
+            sts = []
+            for pk in self._class_profile_dict[ck]:
+                for tk in self._class_profile_dict[ck][pk]:
+                    for card in self._class_profile_dict[ck][pk][tk]:
+                        occ = self._class_profile_dict[ck][pk][tk][card]
+                        fr = self._compute_frequency(n, occ)
+                        if fr >= acceptance_threshold or pk == RDF_TYPE_STR:
+                            sts.append(Statement(st_property=pk, st_type=tk, cardinality=card, probability=fr, n_occurences=occ))
+            yield Shape(name=name, class_uri=ck, statements=sts, n_instances=int(n))
+
+    round2 = [
+        ("C02", "(1) ShexSerializer._serialize_shape_rules pops a statement off the cached Shape objects",
+         setattr_patch(shex_ser.ShexSerializer, "_serialize_shape_rules", rules_popping)),
+        ("C12", "(1) Shaper.profile_graph without its 'if self._profile is None' guard",
+         setattr_patch(shaper_mod.Shaper, "profile_graph", profile_graph_unguarded)),
+        ("C01", "(2) RdflibTripleYielder._turn_rdflib_token_into_model_obj memoised by str(rdflib_obj)",
+         setattr_patch(rty.RdflibTripleYielder, "_turn_rdflib_token_into_model_obj", token_memo)),
+        ("C02", "(3) get_class_profiler passes the raw (untuned) class list to the profiler",
+         setattr_patch(cpf, "tune_target_classes_if_needed", lambda list_target_classes, prefix_namespaces_dict: list(list_target_classes))),
+        ("C10", "(3) get_class_profiler passes the raw (untuned) class list to the profiler",
+         setattr_patch(cpf, "tune_target_classes_if_needed", lambda list_target_classes, prefix_namespaces_dict: list(list_target_classes))),
+        ("C01", "(4) _init_annotated_direct_features iterates dict.fromkeys(class_list)",
+         setattr_patch(afds.AbstractFeatureDirectionStrategy, "_init_annotated_direct_features", init_direct_fromkeys)),
+        ("C09", "(5) _look_for_last_index_of_bnode_token rewritten with the regex _:[\\w\\-]+",
+         setattr_patch(nty.NtTriplesYielder, "_look_for_last_index_of_bnode_token", bnode_token_regex)),
+        ("C10", "(6a) module-level memo in tune_target_classes_if_needed keyed by the class list only", patch_tune_memo),
+        ("C10", "(6b) selector prefixes matched with startswith(prefix) instead of startswith(prefix + ':')", patch_selector_prefix),
+        ("C13", "(7) _prefixize_uri_if_possible keeps everything after the last '/' or '#'",
+         setattr_patch(bss.BaseStatementSerializer, "_prefixize_uri_if_possible", staticmethod(prefixize_last_segment))),
+        ("C14", "(8) Shape.direct_statements setter overwrites _statements (drops the '^' constraints)", patch_direct_setter),
+        ("C16", "(9a) Shaper passes namespaces_to_ignore to the instance tracker",
+         setattr_patch(shaper_mod.Shaper, "_build_instance_tracker", build_tracker_with_ignored_namespaces)),
+        ("C16", "(9b) get_triple_yielder reads sorted(set(list_of_source_files))", patch_sorted_files),
+        ("C12", "(10) direct strategy keeps every rdf:type candidate regardless of the threshold",
+         setattr_patch(dss.DirectShexingStrategy, "_yield_base_shapes_direction_aware", yield_base_keep_rdf_type)),
+        ("C02", "(10) direct strategy keeps every rdf:type candidate regardless of the threshold",
+         setattr_patch(dss.DirectShexingStrategy, "_yield_base_shapes_direction_aware", yield_base_keep_rdf_type)),
+    ]
+
+    return round2 + [
         ("C10", "MixedInstanceTracker._integrate_dicts overwrites the labels the shape map gave a node",
          setattr_patch(mit.MixedInstanceTracker, "_integrate_dicts", integrate_overwrite)),
         ("C14", "_is_relevant_instance without IRI/BNode type check, _annotate_target_object keyed by str(): literals count as links",
